@@ -108,3 +108,86 @@ fn bounds_replay() {
     }
     println!("COMPLETED: ({} ...) with {} arguments returned a value or an error for every filler kind", name, len);
 }
+
+// Native replay for the argument-mapping check (C20, E3): VERIF_MAP_N = number of parameters of
+// the host function, VERIF_MAP_K = the parameter position the solver says is fed from another
+// argument.  A host function of N integer parameters that returns them as a list is registered
+// (Engine and BuiltInModule) and called with N distinct integers; any parameter that did not
+// receive the argument written at its position is the violation.
+macro_rules! host_list_fns {
+    ($( $name:ident ( $($p:ident),* ) ),* $(,)?) => {
+        $( fn $name($($p: isize),*) -> Vec<isize> { vec![$($p),*] } )*
+    };
+}
+host_list_fns!(
+    m1(a), m2(a, b), m3(a, b, c), m4(a, b, c, d), m5(a, b, c, d, e), m6(a, b, c, d, e, f), m7(a, b, c, d, e, f, g),
+    m8(a, b, c, d, e, f, g, h), m9(a, b, c, d, e, f, g, h, i), m10(a, b, c, d, e, f, g, h, i, j),
+    m11(a, b, c, d, e, f, g, h, i, j, k), m12(a, b, c, d, e, f, g, h, i, j, k, l), m13(a, b, c, d, e, f, g, h, i, j, k, l, m),
+    m14(a, b, c, d, e, f, g, h, i, j, k, l, m, n), m15(a, b, c, d, e, f, g, h, i, j, k, l, m, n, o),
+    m16(a, b, c, d, e, f, g, h, i, j, k, l, m, n, o, p),
+);
+
+#[test]
+fn mapping_replay() {
+    let n: usize = std::env::var("VERIF_MAP_N").ok().and_then(|x| x.parse().ok()).expect("VERIF_MAP_N");
+    let mut engine = Engine::new();
+    let mut module = BuiltInModule::new("verif/mapping");
+    macro_rules! reg {
+        ($($k:expr => $f:ident),*) => { $( engine.register_fn(concat!("map", stringify!($k)), $f); module.register_fn(concat!("mmap", stringify!($k)), $f); )* };
+    }
+    reg!(1 => m1, 2 => m2, 3 => m3, 4 => m4, 5 => m5, 6 => m6, 7 => m7, 8 => m8, 9 => m9, 10 => m10, 11 => m11, 12 => m12, 13 => m13, 14 => m14, 15 => m15, 16 => m16);
+    engine.register_module(module);
+    engine.run("(require-builtin verif/mapping)".to_string()).unwrap();
+    if n == 0 || n > 16 {
+        println!("NOT-REPLAYABLE: no host function of {} parameters in the replay harness", n);
+        return;
+    }
+    let mut bad = Vec::new();
+    for prefix in ["map", "mmap"] {
+        let args: Vec<String> = (0..n).map(|i| (100 + i).to_string()).collect();
+        let prog = format!("({}{} {})", prefix, n, args.join(" "));
+        match engine.run(prog.clone()) {
+            Ok(vals) => {
+                let got: Vec<isize> = match vals.last() {
+                    Some(v) => <Vec<isize> as steel::rvals::FromSteelVal>::from_steelval(v).unwrap_or_default(),
+                    None => Vec::new(),
+                };
+                for (i, g) in got.iter().enumerate() {
+                    if *g != 100 + i as isize {
+                        bad.push(format!("{}: parameter {} of the host function received {} (the argument written at position {}) instead of {}", prog, i, g, g - 100, 100 + i));
+                    }
+                }
+                if got.len() != n {
+                    bad.push(format!("{}: host function returned {} parameters", prog, got.len()));
+                }
+            }
+            Err(e) => bad.push(format!("{}: refused: {}", prog, e)),
+        }
+    }
+    if bad.is_empty() {
+        println!("COMPLETED: every parameter received the argument written at its position");
+    } else {
+        println!("OBSERVED: {}", bad.join("; "));
+    }
+}
+
+// Native replay for the argument-kind check (C07 / C10, E3c): VERIF_KINDS_CALL is a script call whose
+// argument kinds (and integer payloads) are the solver's model.  A panic in the host is the violation.
+#[test]
+fn kinds_replay() {
+    let call = std::env::var("VERIF_KINDS_CALL").expect("VERIF_KINDS_CALL");
+    std::panic::set_hook(Box::new(|_| {}));
+    let src = call.clone();
+    let r = std::panic::catch_unwind(std::panic::AssertUnwindSafe(move || {
+        let mut engine = Engine::new();
+        let _ = engine.run("(require-builtin steel/time)".to_string());
+        engine.run(src).map(|_| ()).map_err(|e| e.to_string())
+    }));
+    match r {
+        Err(p) => {
+            let msg = p.downcast_ref::<String>().cloned().or_else(|| p.downcast_ref::<&str>().map(|s| s.to_string())).unwrap_or_default();
+            println!("OBSERVED: evaluating {} panicked in the host instead of returning a value or an error: {}", call, msg.chars().take(160).collect::<String>());
+        }
+        Ok(res) => println!("COMPLETED: {} returned {:?}", call, res.map_err(|e| e.chars().take(80).collect::<String>())),
+    }
+}
